@@ -54,6 +54,11 @@ def run(tier, seed):
                 s.ext = (None, b"\xa0", b"\xa1\x68credBlob\x58\x20" + bytes(32), b"\xa1\x63uvm\x81\x83\x02\x04\x02", b"\xa1\x65ratio\xf9\x3e\x00", b"\xa2\x61a\xfa\x3f\xc0\x00\x00\x61b\xf9\x7c\x00")[(f // 4 + ruv) % 6]
             pol, a = s.build()
             a.attachment = (None, "platform", "cross-platform")[(f // 2 + ruv) % 3]        # a client hint: no influence on any reported field
+            a.user_handle = (None, b"user-handle", b"")[(f // 8 + ruv) % 3]               # present or not: no influence either
+            if f % 7 and (f + ruv) % 2:
+                # the stored key in its other admissible form (the raw uncompressed point of a U2F-era credential): which form the RP stores is not a flag matter
+                n_ = a.cred.pk.public_numbers()
+                pol = impl.AuthPolicy(pol.challenge, pol.rp_id, pol.origin, b"\x04" + n_.x.to_bytes(32, "big") + n_.y.to_bytes(32, "big"), pol.count, pol.require_uv)
             exp = table_auth(f, ruv)
             il, ml = B.run_case(pol, a, "record" if f % 2 else "dict", "accept" if exp else "reject", f"get flags={f:#04x} uv_required={ruv}")
             if il.startswith("OK"):
